@@ -3,7 +3,7 @@
 // SUT: the real sync.EVMDownloader (NewEVMDownloader + Download, real EVMDownloaderImplementation)
 // running as a goroutine inside a synctest bubble over a simchain client whose every RPC is a gate.
 // Space: every chain of N blocks over {no log, one watched log, two watched logs, unwatched+watched,
-// removed log}, every chunk size 1..N+1, every finality configuration, start block 1 or 2; and as
+// removed log, removed log of an orphaned block next to a watched log}, every chunk size 1..N+1, every finality configuration, start block 1 or 2; and as
 // choice points at the RPCs that observe them: how far the tip has moved (every value), where the
 // finalized pointer stands (every value, in the free mode), and one transient RPC error at every
 // position. Oracle on the delivered sequence, checked at every delivery and at quiescence.
@@ -37,7 +37,7 @@ var (
 )
 
 // block kinds
-var kinds = []string{"none", "w1", "w2", "unw+w", "removed"}
+var kinds = []string{"none", "w1", "w2", "unw+w", "removed", "orphan+w"}
 
 func logsOf(kind string) []simchain.LogSpec {
 	w := func(t common.Hash, d byte) simchain.LogSpec {
@@ -56,6 +56,11 @@ func logsOf(kind string) []simchain.LogSpec {
 		r := w(watchedTopic, 7)
 		r.Removed = true
 		return []simchain.LogSpec{r}
+	case "orphan+w":
+		// a removed log of a reorged-away block (it carries that block's hash) next to a valid watched log
+		r := w(watchedTopic2, 8)
+		r.Removed, r.Orphan = true, true
+		return []simchain.LogSpec{r, w(watchedTopic, 1)}
 	}
 	panic(kind)
 }
